@@ -46,10 +46,10 @@ def make_graph(g):
     return A
 
 
-def resist(A, rseed, cplx, ints):
+def resist(A, rseed, cplx, ints, mag=1.0):
     n = A.shape[0]
     W = G.sym_matrix(n, rseed, 0.1, 10.0, ints=ints)
-    R = W * A
+    R = W * A * mag
     if cplx:
         X = G.sym_matrix(n, rseed + 1, -3.0, 3.0) * A
         R = R + 1j * X
@@ -65,7 +65,8 @@ class C18(Machine):
             "query. Distinct: op-name sequence with argument kinds.")
     probe_names = ("query_after_update", "scale_update", "single_edge_update",
                    "complex_impedances", "series_law_checked",
-                   "parallel_law_checked")
+                   "parallel_law_checked", "aliased_update",
+                   "megaohm_circuit")
     real_vs_stub = {"real": ["ResNetwork (constructor, update_resistances, "
                              "all resistive queries, compiled VCFB/ECFB "
                              "kernels)"], "stub": []}
@@ -91,7 +92,9 @@ class C18(Machine):
              "gseed": a.randrange(10 ** 9)}
         cplx = a.random() < 0.12
         cfg = {"lru": lru, "complex": cplx, "ints": a.random() < 0.3,
-               "rseed": a.randrange(10 ** 9)}
+               "rseed": a.randrange(10 ** 9),
+               # milli-ohm ... mega-ohm circuits
+               "mag": a.choice((1.0, 1.0, 1.0, 1e-3, 1e3, 1e6, 1e7))}
         names = QUERIES_CPLX if cplx else QUERIES_REAL
         ops = []
         for _ in range(o.randrange(4, 16)):
@@ -101,10 +104,14 @@ class C18(Machine):
                 if k == "random":
                     op["rseed"] = o.randrange(10 ** 9)
                 elif k == "scale":
-                    op["c"] = o.choice((0.25, 0.5, 2.0, 3.0, 10.0, 1.7))
+                    op["c"] = o.choice((0.25, 0.5, 2.0, 3.0, 10.0, 1.7) + (
+                        (1e3, 1e6, 1e-6) if cfg["mag"] == 1.0 else ()))
                 else:
                     op["e"] = o.randrange(10 ** 6)
                     op["value"] = o.choice((0.05, 1.0, 7.5, 100.0))
+                # the caller may keep one array, edit it in place and pass
+                # it again, or pass a new array each time
+                op["alias"] = o.random() < 0.4
                 ops.append(op)
             else:
                 q = o.choice(names)
@@ -125,11 +132,15 @@ class C18(Machine):
         A = make_graph(g)
         n = A.shape[0]
         cplx = cfg["complex"]
-        Rm = resist(A, cfg["rseed"], cplx, cfg["ints"])
-        net = ResNetwork(Rm.copy(), adjacency=A.copy(), silence_level=3)
+        mag = cfg.get("mag", 1.0)
+        Rm = resist(A, cfg["rseed"], cplx, cfg["ints"], mag)
+        held = Rm.copy()            # the caller's own array
+        net = ResNetwork(held, adjacency=A.copy(), silence_level=3)
         ref = Circuit(A, Rm)
         if cplx:
             R.probe("complex_impedances")
+        if mag >= 1e6:
+            R.probe("megaohm_circuit")
         n_upd = 0
         queried = False
         last_scale = None          # (c, ER matrix before)
@@ -140,20 +151,31 @@ class C18(Machine):
             R.steps += 1
             if op["op"] == "update":
                 if op["kind"] == "random":
-                    new = resist(A, op["rseed"], cplx, False)
+                    new = resist(A, op["rseed"], cplx, False, mag)
                     last_scale = None
                 elif op["kind"] == "scale":
+                    top = float(np.max(np.abs(ref.R))) * op["c"]
+                    if not 1e-9 <= top <= 1e9:
+                        continue      # keep the circuit representable
                     last_scale = (op["c"], ref.er_all())
                     new = ref.R * op["c"]
                     R.probe("scale_update")
                 else:
                     i, j = edges[op["e"] % len(edges)]
                     new = ref.R.copy()
-                    new[i, j] = new[j, i] = op["value"] + (
+                    vals = np.abs(ref.R[ref.A != 0])
+                    cur = 10.0 ** np.round(np.log10(np.median(vals) / 3.0))
+                    new[i, j] = new[j, i] = op["value"] * cur + (
                         new[i, j].imag * 1j if cplx else 0)
                     last_scale = None
                     R.probe("single_edge_update")
-                out = C.call(net.update_resistances, new.copy())
+                if op.get("alias"):
+                    held[...] = new          # in-place edit, same object
+                    R.probe("aliased_update")
+                    out = C.call(net.update_resistances, held)
+                else:
+                    held = new.copy()
+                    out = C.call(net.update_resistances, held)
                 if isinstance(out, C.Raised):
                     R.violate(f"{self.pid}|update_resistances|raises",
                               f"valid update raised {out!r}")
@@ -235,7 +257,10 @@ class C18(Machine):
                       victim="effective_resistance|raises")
             return
         scale = float(np.max(np.abs(ER))) or 1.0
-        eps = 1e-9 * scale
+        gv = np.abs(ref.adm[ref.adm != 0])
+        kappa = float(gv.max() / gv.min()) if gv.size else 1.0
+        # the pseudo-inverse loses about log10(kappa) digits
+        eps = 1e-10 * max(10.0, kappa) * scale
 
         def bad(law, detail):
             R.violate(f"{self.pid}|effective_resistance|law:{law}|{when}",
@@ -247,8 +272,8 @@ class C18(Machine):
             bad("symmetry", f"max |ER - ER^T| = {np.max(np.abs(ER - ER.T))}")
         if last_scale is not None:
             c, before = last_scale
-            if np.max(np.abs(ER - c * before)) > 1e-8 * max(
-                    scale, float(np.max(np.abs(c * before)))):
+            if np.max(np.abs(ER - c * before)) > 10 * eps + 1e-8 * float(
+                    np.max(np.abs(c * before))):
                 bad("scaling", f"after scaling all resistances by {c} the "
                                f"effective resistances did not scale: max "
                                f"dev {np.max(np.abs(ER - c * before))}")
@@ -263,17 +288,17 @@ class C18(Machine):
                     bad("triangle", f"ER({a},{b}) exceeds a detour")
                     break
         D = ref.shortest_path_resistance()
-        if np.any(ER > D + 1e-9 * max(1.0, float(np.max(D)))):
+        if np.any(ER > D + eps + 1e-9 * float(np.max(D))):
             bad("path-bound", "ER exceeds the resistance of a connecting "
                               f"path: max excess {np.max(ER - D)}")
         fo = sum(ER[i, j] / ref.R[i, j] for i in range(n) for j in range(i)
                  if ref.A[i, j])
-        if abs(fo - (n - 1)) > 1e-8 * n:
+        if abs(fo - (n - 1)) > 1e-10 * max(10.0, kappa) * n * n:
             bad("foster", f"sum ER/r over links = {fo}, N-1 = {n - 1}")
         if g["kind"] == "path":
             R.probe("series_law_checked")
             s = sum(ref.R[i, i + 1] for i in range(n - 1))
-            if abs(ER[0, n - 1] - s) > 1e-9 * s:
+            if abs(ER[0, n - 1] - s) > eps + 1e-9 * s:
                 bad("series", f"chain end-to-end ER {ER[0, n - 1]} != sum "
                               f"of resistances {s}")
         if g["kind"] == "cycle":
@@ -283,7 +308,7 @@ class C18(Machine):
                 p1 = sum(r[:b])
                 p2 = sum(r[b:])
                 want = p1 * p2 / (p1 + p2)
-                if abs(ER[0, b] - want) > 1e-9 * max(want, 1.0):
+                if abs(ER[0, b] - want) > eps + 1e-9 * want:
                     bad("parallel", f"cycle ER(0,{b}) = {ER[0, b]} != "
                                     f"{want} (two parallel branches)")
                     break
